@@ -18,6 +18,7 @@ import YtkProofs.OverlayValid
 import YtkProofs.OverlaySafe
 import YtkModel.Codec
 import YtkProofs.HeapOverlay
+import YtkProofs.HeapOverlayPut
 
 namespace Ytk.C06
 open Ytk.Overlay
@@ -772,6 +773,39 @@ theorem nonvacuous_heap_overlay :
     abs (ovRun.get!).2.2.1 14 = abs (ovRun.get!).2.1.1 14 ∧
     abs (ovRun.get!).2.2.1 4 ≠ abs (ovRun.get!).2.1.1 4 ∧
     ovLookupH (ovRun.get!).2.2.1 (ovRun.get!).2.2.2 "base" ["a", "z"] = some 1 := by
+  decide +kernel
+
+/-! ### The domain boundary of the heap-level `Put` for container values
+
+  `heap_put_shares` / `heap_layers_isolated` / `heap_overlay_writes_own_layer` speak about calls for which
+  `putH` answers `some …`; they carry no "no list" hypothesis of their own.  The restriction sits in the
+  DEFINITION: `putH` flattens a container value with `flattenF`, which has no case for list cells, and
+  stores with the plain-name `Heap.addValue`, whereas the Go code (`Flatten` names list items `k[i]`,
+  the recursive `Put(l, path.k[i], leaf)` goes through `ensurePath` / `AddValue` with index groups)
+  needs `flattenList` and `HeapBuilder.addH` / `ensureList`.  The two theorems below state the boundary
+  exactly: a defined `Put` of a container value has seen no list, and a container value holding a list
+  at ANY depth is mapped to `none` for every overlay, layer and path (the harness skips those steps). -/
+
+/-- a `Put` of a container value that the heap model answers has no list cell anywhere below the value -/
+theorem heap_put_container_defined_list_free (h h' : Heap) (s s' : HOverlay) (l : String) (comps : List String)
+    (v : Addr) (kvs : AMap Addr) (hv : h.get? v = some (.cont kvs)) (he : putH h s l comps v = some (h', s')) :
+    ∀ b, Reach h v b → ∀ ys, h.get? b ≠ some (.list ys) :=
+  putH_cont_some_list_free hv he
+
+/-- … and a container value that holds a list is outside the model: `none`, whatever else is given -/
+theorem heap_put_container_list_outside_model (h : Heap) (s : HOverlay) (l : String) (comps : List String)
+    (v b : Addr) (kvs : AMap Addr) (ys : List Addr) (hv : h.get? v = some (.cont kvs)) (hvb : Reach h v b)
+    (hb : h.get? b = some (.list ys)) : putH h s l comps v = none :=
+  putH_cont_list_none s l comps hv hvb hb
+
+/-- `ovHeapL`: 0 nilLeaf · 1 leaf "v" · 2 list [#1] · 3 {x: #2}: `Put` of the LIST #2 is modelled (the list
+    itself is stored), `Put` of the container #3 that holds it is not -/
+def ovHeapL : Heap := ⟨[.leaf Scalar.null, .leaf ⟨"string", "v"⟩, .list [1], .cont [("x", 2)]]⟩
+
+theorem nonvacuous_heap_put_boundary :
+    (putH ovHeapL [] "base" ["a"] 2).isSome = true ∧
+    ((putH ovHeapL [] "base" ["a"] 2).bind fun r => ovLookupH r.1 r.2 "base" ["a"]) = some 2 ∧
+    putH ovHeapL [] "base" ["a"] 3 = none ∧ putH ovHeapL [] "base" [] 3 = none := by
   decide +kernel
 
 end heap
